@@ -108,25 +108,31 @@ impl From<StagedElements> for DeltaElements { fn from(_s: StagedElements) -> Sel
              ]}},
              ghost=[(('loop_start', 0), 'proof { assert(vx_it.index@ < vx_it.seq().len()); assert(*delta == self.deltas@[vx_it.index@ as int]); lemma_sum_mono(self.deltas@, vx_it.index@ as int + 1, self.deltas@.len() as int); reveal_with_fuel(sum_sizes, 2); }')]),
         U.fn(RR, 'RrdpServer', 'find_deltas_truncate_age', hash_loops=(0,),
-             requires=[('max_nr_configured_positive', 'rrdp_updates_config.rrdp_delta_files_max_nr >= 1'), ('deque_len', 'self.deltas@.len() < usize::MAX')],
+             requires=[('deque_len', 'self.deltas@.len() < usize::MAX')],
              ensures=[
                  ('keep_in_bounds', 'r <= self.deltas@.len()'),
                  ('max_nr_within', '''rrdp_updates_config.rrdp_delta_files_min_nr <= rrdp_updates_config.rrdp_delta_files_max_nr - 1
                     && (forall |i: int| rrdp_updates_config.rrdp_delta_files_max_nr - 1 <= i < self.deltas@.len()
                             ==> !is_younger(#[trigger] self.deltas@[i], rrdp_updates_config.rrdp_delta_files_min_seconds as i64))
                     ==> r + 1 <= rrdp_updates_config.rrdp_delta_files_max_nr'''),
+                 # F17: whatever is retained beyond the maximum is retained BECAUSE of a minimum rule (the documented precedence), never
+                 # merely because the counter had already passed the maximum when the first unprotected delta was reached
+                 ('beyond_max_nr_only_what_the_minimum_rules_protect', '''forall |i: int| 0 <= i < r && i + 2 > rrdp_updates_config.rrdp_delta_files_max_nr ==>
+                        i < rrdp_updates_config.rrdp_delta_files_min_nr || is_younger(#[trigger] self.deltas@[i], rrdp_updates_config.rrdp_delta_files_min_seconds as i64)'''),
                  ('retained_never_exceed_max_nr', 'r + 1 <= rrdp_updates_config.rrdp_delta_files_max_nr'),
              ],
              loops={0: {'iter': 'vx_it', 'invariant_except_break': True, 'invariant': [
                  ('seq', 'vx_it.seq().unref() == self.deltas@'),
-                 ('cfg', '''min_nr == rrdp_updates_config.rrdp_delta_files_min_nr && max_nr == rrdp_updates_config.rrdp_delta_files_max_nr && max_nr >= 1
+                 ('cfg', '''min_nr == rrdp_updates_config.rrdp_delta_files_min_nr && max_nr == rrdp_updates_config.rrdp_delta_files_max_nr
                     && min_secs == rrdp_updates_config.rrdp_delta_files_min_seconds'''),
                  ('count', 'keep == vx_it.index@ && self.deltas@.len() < usize::MAX'),
                  ('within', '''min_nr <= max_nr - 1 && (forall |i: int| max_nr - 1 <= i < self.deltas@.len() ==> !is_younger(#[trigger] self.deltas@[i], min_secs as i64))
                     ==> keep <= max_nr - 1'''),
+                 ('protected', 'forall |i: int| 0 <= i < keep && i + 2 > max_nr ==> i < min_nr || is_younger(#[trigger] self.deltas@[i], min_secs as i64)'),
              ], 'ensures': [
                  ('exit', '''keep <= self.deltas@.len() && (min_nr <= max_nr - 1
-                    && (forall |i: int| max_nr - 1 <= i < self.deltas@.len() ==> !is_younger(#[trigger] self.deltas@[i], min_secs as i64)) ==> keep <= max_nr - 1)'''),
+                    && (forall |i: int| max_nr - 1 <= i < self.deltas@.len() ==> !is_younger(#[trigger] self.deltas@[i], min_secs as i64)) ==> keep <= max_nr - 1)
+                    && (forall |i: int| 0 <= i < keep && i + 2 > max_nr ==> i < min_nr || is_younger(#[trigger] self.deltas@[i], min_secs as i64))'''),
              ]}},
              ghost=[(('loop_start', 0), 'broadcast use axiom_i64_from_u32; proof { axiom_i64_from_u32_obeys(); assert(vx_it.index@ < vx_it.seq().len()); assert(*delta == self.deltas@[vx_it.index@ as int]); }'),
                     (('after', 'delta.younger_than_seconds(min_secs.into()) {'), 'proof { /*@into_is_cast*/ assert(keep < min_nr || is_younger(*delta, min_secs as i64)); }')]),
